@@ -339,6 +339,9 @@ def replay(case):
                                   record=True, budget=300, line_level=len(row) > 4 and row[4])
         r = judge_close(kind, CLOSE_PROGRAMS[name], run)
         return r and '%s: %s' % r
+    if row[0] == 'ioport_half':
+        v = check_ioport_half_closed()
+        return v and '%s: %s' % v[0]
     if row[0] == 'deadpeer':
         from . import c18
         v, _ = c18.check_send_to_dead_peer()
@@ -487,6 +490,41 @@ def close_explore_worker(jobs):
     return res
 
 
+def check_ioport_half_closed():
+    """An IOPort whose input device closed itself (the peer hung up) or whose one half was
+    closed by hand: closing the wrapper still releases the other half, once, after its reset
+    messages."""
+    import mido.ports as mp
+    out = []
+    for how in ('input-closes-itself', 'input-closed-by-hand', 'output-closed-by-hand'):
+        world = World(['arrive_close'] if how == 'input-closes-itself' else [])
+        InD, OutD, IOD = make_doubles()
+        i = InD('i', world=world, who='in')
+        o = OutD('o', world=world, who='out', autoreset=True)
+        port = mp.IOPort(i, o)
+        try:
+            if how == 'input-closes-itself':
+                got = port.poll()
+                if got is None or not i.closed:
+                    out.append(('ioport-half/' + how, 'the input did not deliver and close (%r, closed=%r)' % (got, i.closed)))
+                    continue
+            elif how == 'input-closed-by-hand':
+                i.close()
+            else:
+                o.close()
+            port.close()
+            port.close()
+        except Exception as e:
+            out.append(('ioport-half/%s/raises' % how, repr(e)))
+            continue
+        closes = [(who, what) for who, what, _ in world.log if what == 'close']
+        resets = sum(1 for who, what, m in world.log if who == 'out' and what == 'send')
+        if sorted(closes) != [('in', 'close'), ('out', 'close')] or resets != 32 or not port.closed:
+            out.append(('ioport-half/' + how, 'after %s and close() of the wrapper the devices saw %r and %d reset messages '
+                        '(expected each half released once, 32 reset messages)' % (how, closes, resets)))
+    return out[:3]
+
+
 def check_server_close_while_receiving():
     """A thread waits in receive() on a PortServer nobody has connected to; close()
     and poll() from another thread must return, and the waiting receive must end.
@@ -618,6 +656,9 @@ def run(ctx):
         if r:
             ctx.violation('lifecycle/socket/%s' % r[0], {'row': ['socket', mode, stream, cut, acts, delivered, polls]},
                           '%s (SocketPort, %s, peer actions %r)' % (r[1], mode, acts))
+    for key, msg in check_ioport_half_closed():
+        ctx.violation('lifecycle/' + key, {'row': ['ioport_half']}, msg)
+    ctx.replayed += 3
     # a device that discovers on a WRITE that it is gone (real TCP)
     v, skipped = c18.check_send_to_dead_peer()
     ctx.replayed += 1
